@@ -140,11 +140,30 @@ func vfSafeDet(d magic.Detector, raw []byte, lim uint32) (res string) {
 			res = "PANIC"
 		}
 	}()
-	if d(raw, lim) {
+	// a detector only reads its input: the bytes are compared with a pristine copy after every call
+	// (the copy is made once per input); a detector that wrote gets the verdict "W" and the bytes are
+	// put back, so that the following detectors are judged on the original input
+	if len(raw) > 0 {
+		if len(vfPristine) != len(raw) || vfPristineOf != &raw[0] || !bytes.Equal(raw, vfPristine) {
+			vfPristine = append(vfPristine[:0], raw...)
+			vfPristineOf = &raw[0]
+		}
+	}
+	v := d(raw, lim)
+	if len(raw) > 0 && !bytes.Equal(raw, vfPristine) {
+		copy(raw, vfPristine)
+		return "W"
+	}
+	if v {
 		return "T"
 	}
 	return "F"
 }
+
+var (
+	vfPristine   []byte
+	vfPristineOf *byte
+)
 
 func vfChain(m *MIME) string {
 	var parts []string
